@@ -13,6 +13,7 @@ RULE = ("the real pamiq_core/torch/model.py over a stand-in torch package; one i
         "(a step that rewrites every parameter and every grad in place, or sync()); 1-3 parameters, in 30% of the runs all frozen (requires_grad=False, updated in place by the trainer all the same); the inference procedure is the default one or a method given by name; every source line of torch/model.py, every lock operation and every tensor operation is a scheduling point and the schedule switches "
         "threads at 0-4 chosen points (quick: seeded random points; thorough: every single point and random pairs / triples). The observed event sequence must be accepted by the model, satisfy the monitor "
         "(no training write to the module a locked section reads; one module per section), and after a final sync both sides hold equal values, training mode restored, different objects. "
+        "A third of the runs drive the training side through a real TorchTrainer (run() = setup with fresh optimizers, train with grads / optimizer step / zero_grad, sync, teardown; with or without a second, train-only model) and let the inference thread back-propagate through the module it holds. "
         "Non-trivial = at least one switch falls between an unwrap()/infer() call and its lock release while a sync is in flight; distinct = canonical JSON.")
 TRUSTED = [
     "Coq 8.16.1 kernel incl. vm_compute",
@@ -43,6 +44,16 @@ def gen_one(rng, tier):
             "frozen": rng.random() < 0.3}         # every parameter has requires_grad=False (a frozen / target network that the trainer updates in place)
 
 
+def gen_trainer(rng):
+    """the training side is a real TorchTrainer: run() = setup (optimizers), train (grads, optimizer step, maybe zero_grad),
+    sync, teardown; the inference thread may also back-propagate through the module it holds"""
+    n = rng.choice([1, 2, 2, 3])
+    inf = [[rng.choice(["infer", "unwrap", "backprop", "backprop"])] for _ in range(rng.randint(1, 4))]
+    k = rng.choice([0, 1, 2, 2, 3, 4])
+    return {"nparams": n, "inf": inf, "train": [["run"] for _ in range(rng.randint(1, 4))], "preempt": [], "preempt_frac": sorted(round(rng.random(), 3) for _ in range(k)),
+            "distinct": True, "named_proc": rng.random() < 0.3, "frozen": False, "via_trainer": True, "critic": rng.random() < 0.5, "zero_grad": rng.random() < 0.6}
+
+
 def gen(rng, tier):
     if tier == "thorough":
         cases = []
@@ -55,9 +66,11 @@ def gen(rng, tier):
                 cases.append(dict(base, preempt=[a, b]))
         for _ in range(6000):
             cases.append(gen_one(rng, tier))
+        for _ in range(3000):
+            cases.append(gen_trainer(rng))
         return cases
-    n = {"quick": 600, "search": 3000}[tier]
-    return [gen_one(rng, tier) for _ in range(n)]
+    n, nt = {"quick": (600, 300), "search": (3000, 1500)}[tier]
+    return [gen_one(rng, tier) for _ in range(n)] + [gen_trainer(rng) for _ in range(nt)]
 
 
 def precheck(case, obs):
@@ -105,7 +118,7 @@ def coq_case(case, obs):
     fin = "{| f_tref := %s; f_iref := %s; f_tparams := %s; f_iparams := %s; f_tgrads := %s; f_tmode := %s; f_imode := %s |}" % (
         cn(f["train_ref"]), cn(f["inf_ref"]), cl(cz(x) for x in f["train_params"]), cl(cz(x) for x in f["inf_params"]),
         cl(copt(None if g is None else cz(g)) for g in f["train_grads"]), cb(f["train_mode"]), cb(f["inf_mode"]))
-    synced = bool(case["train"]) and case["train"][-1][0] == "sync"
+    synced = bool(case["train"]) and case["train"][-1][0] in ("sync", "run")
     return "{| c_in := %s; c_tr := %s; c_fin := %s; c_synced := %s |}" % (coq_input(case), coq_trace(obs), fin, cb(synced))
 
 
@@ -184,14 +197,15 @@ def describe(case, obs):
 
 
 def distribution(cases, obs):
-    d = {"runs": len(cases), "events": 0, "sections": {"infer": 0, "unwrap": 0}, "syncs": 0, "steps": 0, "switches": 0, "preempt_points": {}, "frozen_models": sum(1 for c in cases if c.get("frozen"))}
+    d = {"runs": len(cases), "events": 0, "sections": {"infer": 0, "unwrap": 0, "backprop": 0}, "syncs": 0, "steps": 0, "switches": 0, "preempt_points": {}, "frozen_models": sum(1 for c in cases if c.get("frozen"))}
     for c, o in zip(cases, obs):
         ev = o.get("events", [])
         d["events"] += len(ev)
         d["switches"] += sum(1 for a, b in zip(ev, ev[1:]) if a[0] != b[0])
         for s in c["inf"]:
             d["sections"][s[0]] += 1
-        d["syncs"] += sum(1 for t in c["train"] if t[0] == "sync")
+        d["syncs"] += sum(1 for t in c["train"] if t[0] in ("sync", "run"))
+        d["trainer_runs"] = d.get("trainer_runs", 0) + sum(1 for t in c["train"] if t[0] == "run")
         d["steps"] += sum(1 for t in c["train"] if t[0] == "step")
         k = str(len(c.get("preempt_frac") or c["preempt"])); d["preempt_points"][k] = d["preempt_points"].get(k, 0) + 1
     return d
